@@ -8,10 +8,14 @@ package swarm
 // /verif/coq/c20/Spec.v.
 
 import (
+	"context"
+	"errors"
 	"fmt"
 	"strings"
 	"testing"
 
+	"github.com/libp2p/go-libp2p/core/peer"
+	"github.com/libp2p/go-libp2p/core/transport"
 	"github.com/libp2p/go-libp2p/internal/verifh"
 	ma "github.com/multiformats/go-multiaddr"
 	manet "github.com/multiformats/go-multiaddr/net"
@@ -246,6 +250,70 @@ func c20Classify(addrs, valid, bh []ma.Multiaddr) c20Flags {
 	return res
 }
 
+// c20FakeTpt is a scripted transport for driving Swarm.dialAddr: it claims
+// every address (or none) and its dial fails or returns a connection to the
+// requested peer, without any network I/O.
+type c20FakeTpt struct {
+	transport.Transport
+	canDial bool
+	fail    bool
+	dials   int
+}
+
+type c20FakeConn struct {
+	transport.CapableConn
+	p peer.ID
+	a ma.Multiaddr
+}
+
+func (c *c20FakeConn) RemotePeer() peer.ID           { return c.p }
+func (c *c20FakeConn) RemoteMultiaddr() ma.Multiaddr { return c.a }
+func (c *c20FakeConn) Close() error                  { return nil }
+
+func (f *c20FakeTpt) CanDial(ma.Multiaddr) bool { return f.canDial }
+func (f *c20FakeTpt) Protocols() []int          { return []int{ma.P_TCP} }
+func (f *c20FakeTpt) Proxy() bool               { return false }
+func (f *c20FakeTpt) Close() error              { return nil }
+func (f *c20FakeTpt) Dial(_ context.Context, a ma.Multiaddr, p peer.ID) (transport.CapableConn, error) {
+	f.dials++
+	if f.fail {
+		return nil, errors.New("scripted dial failure")
+	}
+	return &c20FakeConn{p: p, a: a}, nil
+}
+
+// c20DialAddr runs one Swarm.dialAddr on a swarm whose only transport is the
+// scripted one.  scenario 0: the dial succeeds, 1: the dial fails,
+// 2: context already cancelled, 3: no transport claims the address,
+// 4: dial to self.  Returns whether the transport's Dial was called.
+func c20DialAddr(sw *Swarm, d *blackHoleDetector, a ma.Multiaddr, scenario int) bool {
+	f := &c20FakeTpt{canDial: scenario != 3, fail: scenario == 1}
+	sw.transports.Lock()
+	saved := sw.transports.m
+	sw.transports.m = map[int]transport.Transport{ma.P_TCP: f}
+	sw.transports.Unlock()
+	defer func() {
+		sw.transports.Lock()
+		sw.transports.m = saved
+		sw.transports.Unlock()
+	}()
+	sw.bhd = d
+	ctx, cancel := context.WithCancel(context.Background())
+	defer cancel()
+	if scenario == 2 {
+		cancel()
+	}
+	p := peer.ID("somepeer")
+	if scenario == 4 {
+		p = sw.local
+	}
+	c, _ := sw.dialAddr(ctx, p, a, nil)
+	if c != nil {
+		c.Close()
+	}
+	return f.dials > 0
+}
+
 func c20Detector(out *verifh.Out, r *verifh.Rand, length int, sw *Swarm) {
 	mk := func() (*BlackHoleSuccessCounter, int64, int64) {
 		if r.Chance(1, 6) {
@@ -265,7 +333,10 @@ func c20Detector(out *verifh.Out, r *verifh.Rand, length int, sw *Swarm) {
 	line := []int64{1, un, um, vn, vm}
 	removedAny, usedRO, roAfterBlocked := false, false, false
 	for i := 0; i < length; i++ {
-		k := r.Intn(12)
+		k := r.Intn(14)
+		if k >= 12 && sw == nil {
+			k = 8
+		}
 		ro := 0
 		if r.Chance(1, 3) {
 			ro = 1
@@ -321,6 +392,21 @@ func c20Detector(out *verifh.Out, r *verifh.Rand, length int, sw *Swarm) {
 			d.RecordResult(c20Addr(t, 7), succ)
 			line = append(line, 11, int64(ro), t.cls, c20b(succ))
 			out.Cover("detector.op.record")
+		case k >= 12: // Swarm.dialAddr with a scripted transport
+			t := c20Tmpls[r.Intn(len(c20Tmpls))]
+			scenario := r.Intn(5)
+			dialed := c20DialAddr(sw, d, c20Addr(t, 9), scenario)
+			if dialed != (scenario <= 1) {
+				out.Comment(fmt.Sprintf("dialAddr scenario %d: transport dialed = %v", scenario, dialed))
+				out.Cover("detector.dialaddr_scenario_unexpected")
+			}
+			if dialed {
+				line = append(line, 14, int64(ro), t.cls, c20b(scenario == 0))
+				out.Cover("detector.op.dialaddr_dialed")
+			} else {
+				line = append(line, 15, int64(ro), t.cls)
+				out.Cover("detector.op.dialaddr_no_dial")
+			}
 		default: // RecordResult directly on a shared counter
 			w := int64(r.Intn(2))
 			succ := r.Chance(1, 3)
@@ -511,6 +597,21 @@ func TestVerifC20Replay(t *testing.T) {
 			dets[in[i+1]].RecordResult(c20Addr(tmplOf(in[i+2], false), 7), in[i+3] != 0)
 			line = append(line, 11, in[i+1], in[i+2], in[i+3])
 			i += 4 + 8
+		case 14:
+			sc := 1
+			if in[i+3] != 0 {
+				sc = 0
+			}
+			c20DialAddr(sw, dets[in[i+1]], c20Addr(tmplOf(in[i+2], false), 9), sc)
+			line = append(line, 14, in[i+1], in[i+2], in[i+3])
+			i += 4 + 8
+		case 15:
+			// the recorded case does not say which early return it was: run all three
+			for _, sc := range []int{2, 3, 4} {
+				c20DialAddr(sw, dets[in[i+1]], c20Addr(tmplOf(in[i+2], false), 9), sc)
+			}
+			line = append(line, 15, in[i+1], in[i+2])
+			i += 3 + 8
 		default:
 			c := udp
 			if in[i+1] == 1 {
